@@ -71,16 +71,24 @@ def main():
     failures = []        # concrete failing inputs attributable to this property
     runs = []
     gen_error = None
-    # 1. regenerate tables, build
-    try:
-        import gen_tables
-        gen_tables.generate()
-        if hasattr(gen_tables, "generate_extra"):
-            gen_tables.generate_extra()
-        gen_tables.generate_struct()
-    except Exception:  # noqa
-        gen_error = traceback.format_exc()
-        broken.append(("translator", "gen_tables failed (fail-closed): " + gen_error[-800:]))
+    # 1. regenerate tables, build (each translator is fail-closed; a failure concerns the properties that rest on its output)
+    import gen_tables
+    scope = {"Gen/Structure.v": {"C01", "C02", "C04", "C09", "C13", "C18"}, "Gen/ApiSurface.v": {"C03"},
+             "Gen/Contexts.v": {"C01", "C05", "C07", "C09", "C10", "C13", "C15"}}
+    for fn_name, gen_file in (("generate", None), ("generate_extra", None), ("generate_struct", "Gen/Structure.v"),
+                              ("generate_contexts", "Gen/Contexts.v")):
+        try:
+            getattr(gen_tables, fn_name)()
+        except Exception:  # noqa
+            gen_error = traceback.format_exc()
+            if gen_file is not None:
+                # make sure a stale generated file cannot stand in for the one that could not be produced
+                try:
+                    os.remove(os.path.join(COQDIR, gen_file))
+                except OSError:
+                    pass
+            if gen_file is None or prop in scope[gen_file]:
+                broken.append(("translator", f"gen_tables.{fn_name} failed (fail-closed): " + gen_error[-800:]))
     ok, log = coq_build()
     build_log = "" if ok else log[-3000:]
     ob = obligations(prop)
@@ -89,7 +97,6 @@ def main():
         # which fails if anything it depends on failed) and the correspondence / generated files
         m = sorted(set(re.findall(r"File \"\./([^\"]+)\"", log)))
         # generated obligations about one aspect of the source concern the properties that rest on that aspect
-        scope = {"Gen/Structure.v": {"C01", "C02", "C04", "C09", "C13", "C18"}, "Gen/ApiSurface.v": {"C03"}}
         needed = [f for f in m if (f.startswith(("Corr/", "Gen/", "Model/")) and prop in scope.get(f, {prop})) or f == f"Props/{prop}.v"]
         if needed:
             broken.append(("coq-build", f"make failed in {needed}: " + log[-1200:]))
